@@ -127,6 +127,10 @@ def run(ctx):
     rng = ctx.rng
     ncases = ctx.n(160, 1500)
     exprs, metas = [], []
+    # a binner is built once per observation and then called for every sample of a retrieval: a quarter of the
+    # cases call the SAME binner object again, on a different native grid with the same number of points and the same
+    # end points (what a cache keyed on a summary of the grid would confuse)
+    specs = []
     for k in range(ncases):
         kind, wn, w = gen_native(rng)
         style, tc, tw = gen_target(rng, wn, w)
@@ -134,6 +138,14 @@ def run(ctx):
         scalar_w = tw is not None and rng.random() < 0.12
         if scalar_w:
             tw = np.full(len(tc), float(tw[0]))
+        specs.append((kind, wn, w, style, tc, tw, scalar_w, False))
+        if w is None and len(wn) >= 4 and (k < 4 or rng.random() < 0.25):
+            # (smoothly spaced like every generated native grid: linear <-> logarithmic between the same end points)
+            wn2 = np.linspace(wn[0], wn[-1], len(wn)) if kind != 'linear' else np.geomspace(wn[0], wn[-1], len(wn))
+            wn2[0], wn2[-1] = wn[0], wn[-1]
+            specs.append((kind + '+again', wn2, None, style, tc, tw, scalar_w, True))
+    last = None
+    for (kind, wn, w, style, tc, tw, scalar_w, again) in specs:
         n = len(wn)
         f = np.array([rng.uniform(-1, 1) * 10 ** rng.uniform(-6, 2) for _ in range(n)])
         if rng.random() < 0.1:
@@ -142,7 +154,9 @@ def run(ctx):
         shuffled = rng.random() < 0.5
         perm = list(range(n))
         tperm = list(range(len(tc)))
-        if shuffled:
+        if again and last is not None:
+            shuffled, tperm = False, last[1]
+        elif shuffled:
             rng.shuffle(perm)
             rng.shuffle(tperm)
         twod = rng.random() < 0.2
@@ -154,7 +168,12 @@ def run(ctx):
         tw_in = None if tw is None else tw[tperm]
         # ---- implementation
         try:
-            binner = FluxBinner(tc_in, float(tw_in[0]) if scalar_w else tw_in)
+            if again and last is not None:
+                binner = last[0]
+                ctx.count('binner_called_again')
+            else:
+                binner = FluxBinner(tc_in, float(tw_in[0]) if scalar_w else tw_in)
+            last = (binner, tperm)
             spec = np.vstack([f_in, 2 * f_in + 1]) if twod else f_in
             with np.errstate(all='ignore'):
                 if twod:
@@ -167,6 +186,7 @@ def run(ctx):
         except Exception as e:  # the public call itself failed
             ctx.violation('impl-raises:' + C.err_kind(e), 'FluxBinner raised %r on a valid grid' % (e,),
                           replay=dict(kind=kind, wn=wn_in, w=w_in, f=f_in, tc=tc_in, tw=tw_in))
+            last = None
             continue
         if bm is not None and not np.allclose(bm[1], impl['flux'][0] if twod else impl['flux'], rtol=1e-12, atol=0,
                                               equal_nan=True):
@@ -272,6 +292,7 @@ def run_simple(ctx, SimpleBinner, NativeBinner):
     rng = ctx.rng
     from taurex.util.util import bindown
     exprs, metas = [], []
+    sb_prev = None
     for k in range(ctx.n(60, 400)):
         n = rng.choice([3, 5, 8, 13, 30])
         wn = np.sort(np.array([rng.uniform(100, 1000) for _ in range(n)]))
@@ -284,8 +305,20 @@ def run_simple(ctx, SimpleBinner, NativeBinner):
             wn[rng.randrange(n)] = ed[rng.randrange(len(ed))]
             wn = np.sort(wn)
         twod = rng.random() < 0.4
+        again = sb_prev is not None and (k % 3 == 1)
+        if again:          # the previous binner object, called on another native grid of the same size and end points
+            tg, wn0 = sb_prev[1], sb_prev[2]
+            if len(wn0) >= 3:
+                inner = np.sort(np.array([rng.uniform(wn0[0], wn0[-1]) for _ in range(len(wn0) - 2)]))
+                wn = np.concatenate([[wn0[0]], inner, [wn0[-1]]])
+            else:
+                wn = wn0
+            n = len(wn)
+            f = np.array([rng.uniform(0, 1) for _ in range(n)])
+            ctx.count('simple_binner_called_again')
         with np.errstate(all='ignore'):
-            sb = SimpleBinner(tg)
+            sb = sb_prev[0] if again else SimpleBinner(tg)
+            sb_prev = (sb, tg, wn)
             if twod:
                 out = sb.bindown(wn, np.vstack([f, f]))[1][0]
             else:
